@@ -24,6 +24,7 @@ type replayFile struct {
 	Label     string            `json:"label"`
 	Observes  []Observed        `json:"observes"`
 	Decisions json.RawMessage   `json:"decisions"`
+	Tier      int               `json:"tier"`
 }
 
 type Observed struct {
@@ -217,6 +218,9 @@ func fmtObs(v interface{}) string {
 	}
 	return fmt.Sprintf("%d", v)
 }
+
+// Tier is 0 for the quick tier and 1 for the thorough tier.
+func Tier() int { load(); return rf.Tier }
 
 // Symbolic reports whether the harness runs under the symbolic engine.
 func Symbolic() bool { return false }
